@@ -234,7 +234,7 @@ class Tokenizer(object):
         the LISP rules.
         This is the method doing the heavy-lifting of tokenization.
         """
-        spaces = {" ", "\n", "\t"}
+        spaces = {" ", "\n", "\t", "\r"}
         separators = {"(", ")", "|", "\""}
         specials = spaces | separators | {";", ""}
 
@@ -291,7 +291,8 @@ class Tokenizer(object):
                             c = next(reader)
 
                     elif c == ";":
-                        while c and c != "\n":
+                        # a comment ends with the line (LF or CR)
+                        while c and c != "\n" and c != "\r":
                             c = next(reader)
                         c = next(reader)
 
@@ -656,7 +657,8 @@ class SmtLibParser(object):
     def _division(self, left: FNode, right: FNode) -> FNode:
         """Utility function that builds a division"""
         mgr = self.env.formula_manager
-        if left.is_constant() and right.is_constant() and \
+        if (left.is_int_constant() or left.is_real_constant()) and \
+           (right.is_int_constant() or right.is_real_constant()) and \
            right.constant_value() != 0:
             return mgr.Real(Fraction(left.constant_value()) /
                             Fraction(right.constant_value()))
@@ -726,8 +728,9 @@ class SmtLibParser(object):
                 except ValueError:
                     if not unknown_as_string:
                         raise PysmtSyntaxError("Unknown symbol '%s'" % token)
-                    # a string constant
-                    res = mgr.String(token)
+                    # a string constant; it is not remembered: the
+                    # name stays unknown wherever it is not allowed
+                    return mgr.String(token)
             self.cache.bind(token, res)
         return res
 
